@@ -576,6 +576,7 @@ Section Init.
   Variable V : variant.
   Variable R : registry.
   Variable clean : cleaner.
+  Variable refuse : bool.   (* parsing.py _refuse_unrequested_custom present (true from fix c6e00f7 on) *)
 
   (* the scan of `extensions` for toplevel-property-extension entries:
      (registered toplevel slots, has_unregistered_toplevel_extension) *)
@@ -882,6 +883,20 @@ Section Init.
     | _ => fail K_TypeError
     end.
 
+  (* parsing.py _refuse_unrequested_custom(obj, allow_custom): `not allow_custom and obj.has_custom`.
+     With allow_custom=False the constructor only records customisation when a truthy custom_properties
+     dict switched it on; has_custom is then certainly true when that dict names a property the class does
+     not define, and otherwise whatever the (black box) cleaners reported. *)
+  Definition refuse_custom (c : cls) (ac : bool) (kw : list (ustring * jvalue)) : M unit :=
+    if refuse && negb ac then
+      match jlookup (us "custom_properties") kw with
+      | Some (JObj (e :: r)) =>
+          if existsb (fun k => negb (mem_name k (map s_name (c_slots c)))) (keys (e :: r))
+          then fail K_CustomContentError else may [K_CustomContentError]
+      | _ => ret tt
+      end
+    else ret tt.
+
   Definition dict_to_stix2 (dec : decoder) (d : jvalue) (nonstr : bool) (ac : bool) (version : option ustring) : M parsed :=
     has <- py_in (us "type") d ;;
     if negb has then fail K_ParseError
@@ -891,7 +906,7 @@ Section Init.
       c1 <- class_for_type R ty ver CatObjects ;;
       c2 <- match c1 with Some c => ret (Some c) | None => class_for_type R ty ver CatObservables end ;;
       match c2, d with
-      | Some c, JObj m => call_check m nonstr ;;; construct dec c ac m ;;; ret PObject
+      | Some c, JObj m => call_check m nonstr ;;; construct dec c ac m ;;; refuse_custom c ac m ;;; ret PObject
       | Some _, _ => fail K_TypeError
       | None, JObj m =>
           if ac then ret PDictAsIs
@@ -919,7 +934,7 @@ Section Init.
           ty <- type_of (JObj m) ;;
           c <- class_for_type R ty ver CatObservables ;;
           match c with
-          | Some c => call_check m (snd d) ;;; construct dec c ac m ;;; ret PObject
+          | Some c => call_check m (snd d) ;;; construct dec c ac m ;;; refuse_custom c ac m ;;; ret PObject
           | None => if ac then ret PDictAsIs else fail K_ParseError
           end
       | _ => fail K_TypeError        (* obj['_valid_refs'] = ... on a str / list *)
@@ -938,6 +953,7 @@ Section Store.
   Variable V : variant.
   Variable R : registry.
   Variable clean : cleaner.
+  Variable refuse : bool.
   Variable dec : decoder.
 
   Definition store := list jvalue.
@@ -947,7 +963,7 @@ Section Store.
     map (fun r => match r with
                   | Val _ => ((st ++ [x])%list, Added)
                   | Exc e s => (st, Escaped e s)
-                  end) (parse V R clean dec x true version).
+                  end) (parse V R clean refuse dec x true version).
 
   (* a list of such inputs, left to right; the first escaping exception stops the loop *)
   Fixpoint store_add_list (st : store) (xs : list jvalue) (version : option ustring) : list (store * added) :=
